@@ -24,7 +24,12 @@ EXPLANATION = (
     "under exchanging h1[0] and h1[1] (they see only the spin average). FD-1: the finite-difference "
     "two-body term of wave_function_auto is the symmetric stencil (O(+eps) - 2 O(0) + O(-eps))/eps^2 of "
     "one function, and the one-body term differentiates at x = 0 with unit tangent. NI-1: batched "
-    "evaluation is a pure split/merge of the walker axis."
+    "evaluation is a pure split/merge of the walker axis. "
+    "SYM-1 / SIB-2 on the AD helpers of wave_function_auto: the rotated down-spin walker handed to "
+    "_calc_overlap mirrors the rotated up-spin one (walker_up -> walker_dn, h1[0] -> h1[1]) and the "
+    "restricted helper applies the same rotation. cisd_faster == cisd as whole value numbers (an "
+    "accumulating scan of scalar contractions is numbered as the same contraction with the scanned axis "
+    "summed). "
 )
 NOT_DECIDED = (
     "the half-rotated-integral and Wick formulas as formulas (coefficients, exchange vs Coulomb index "
